@@ -172,6 +172,58 @@ def check_degrees(f, deg, wname):
     return True
 
 
+def mirrored_slots(repo, rep, r6, prims, models):
+    """Branch.__init__ binds every element of `values` to i0, i1, ... as well.  A result builder (or any other method)
+    that replaces the slot afterwards leaves those mirrors pointing at the old children: `(h * f).i0` is then not the
+    scaled child.  Instances are inferred: a `for ... in <param>: setattr(self, ...)` loop in __init__ over the parameter
+    that is also stored into a child slot."""
+    ninst = 0
+    for c in prims:
+        init = repo.own_method(c, "__init__")
+        if init is None:
+            continue
+        sn = init.params[0]
+        m = models[c.name]
+        mirrored = set()
+        for loop in walk_local_stmt(init.node):
+            if not isinstance(loop, ast.For):
+                continue
+            if not any(isinstance(x, ast.Call) and isinstance(x.func, ast.Name) and x.func.id == "setattr" and x.args
+                       and isinstance(x.args[0], ast.Name) and x.args[0].id == sn for b in loop.body for x in ast.walk(b)):
+                continue
+            src = {x.id for x in ast.walk(loop.iter) if isinstance(x, ast.Name)}
+            for n in walk_local_stmt(init.node):
+                if isinstance(n, ast.Assign) and isinstance(n.value, ast.Name) and n.value.id in src:
+                    for t in n.targets:
+                        if isinstance(t, ast.Attribute) and isinstance(t.value, ast.Name) and t.value.id == sn and t.attr in m.slots:
+                            mirrored.add(t.attr)
+        for slot in sorted(mirrored):
+            ninst += 1
+            for f in c.methods.values():
+                if f.name == "__init__":
+                    continue
+                bad = None
+                for n in walk_local_stmt(f.node):
+                    tg = n.targets if isinstance(n, ast.Assign) else ([n.target] if isinstance(n, ast.AugAssign) else [])
+                    for t in tg:
+                        if isinstance(t, ast.Attribute) and t.attr == slot:
+                            bad = n
+                    if isinstance(n, ast.Call) and isinstance(n.func, ast.Name) and n.func.id == "setattr" and len(n.args) >= 2 \
+                            and isinstance(n.args[1], ast.Constant) and n.args[1].value == slot:
+                        bad = n
+                if bad is not None and any(isinstance(x, ast.Call) and isinstance(x.func, ast.Name) and x.func.id == "setattr" and len(x.args) >= 2
+                                           and not isinstance(x.args[1], ast.Constant) for x in walk_local_stmt(f.node)):
+                    bad = None      # the method re-establishes the mirrors itself
+                r6.ob(bad is None, f"{c.name}.{f.name}: does not replace the mirrored slot `{slot}`")
+                if bad is not None:
+                    rep.finding("R8.6", f, bad, f"{c.name}.__init__ mirrors every element of `{slot}` into the attributes i0, i1, ... (setattr), "
+                                f"but `{norm(bad)[:70]}` replaces `{slot}` on an object built elsewhere: its iN attributes keep pointing at "
+                                f"the children it was constructed with, so the result read through `.i0` is not the result read through "
+                                f"`.{slot}[0]` (build the result with the constructor instead)", stmt=f"{slot} replaced outside __init__")
+    if ninst == 0:
+        raise AnalysisError("R8.6: no class with setattr-mirrored slots found (Branch.__init__ expected)")
+
+
 def run(repo, rep, tier):
     rep.extra["explanation"] = (
         "Structure of all 19 __mul__/__rmul__: (R8.1) abstract evaluation of the guard over the factor classes "
@@ -191,6 +243,11 @@ def run(repo, rep, tier):
     r3 = rep.rule("R8.3", "__rmul__ delegates to __mul__", floor=19)
     r4 = rep.rule("R8.4", "stores keep the container kind fixed by __init__ for kind-sensitively used fields", floor=15)
     r5 = rep.rule("R8.5", "Count.__mul__ refuses a non-identity transform before computing", floor=1)
+    # the scaled result is a first-class aggregator: filling or merging it must not change the original
+    rep.borrow(repo, "C06", {"R6.2": ("R8.7", "children of h * f are fresh objects (the scaled result shares nothing fillable with h)", 40)},
+               keep=lambda f: f.construct.endswith(".__mul__") or f.construct.endswith(".zero"))
+    r6 = rep.rule("R8.6", "a slot that __init__ mirrors into per-element attributes (setattr) is only ever set by __init__", floor=5)
+    mirrored_slots(repo, rep, r6, prims, models)
     for c in prims:
         m = models[c.name]
         f = repo.own_method(c, "__mul__")
